@@ -78,8 +78,10 @@ def gen_history(rng, names, n_batches, fresh_prefix):
     return hist, kinds
 
 
-def make_fn_node(rng, kind, tag):
-    """(node, meta) for one callable node with distinct defaults/annotations per parameter."""
+def make_fn_node(rng, kind, tag, ctor_rename_of=None):
+    """(node, meta) for one callable node with distinct defaults/annotations per parameter. ctor_rename_of: a function
+    names -> batch; the batch is then applied through the CONSTRUCTOR argument rename_inputs= (one parallel batch, like
+    one with_inputs call) and reported in meta['ctor_batch']."""
     from hypergraph import END, FunctionNode, IfElseNode, InterruptNode, RouteNode
 
     n = rng.randint(2, 4)
@@ -99,22 +101,24 @@ def make_fn_node(rng, kind, tag):
         ret = complex if len(outs) == 1 else tuple[complex, bytes]
     fn = rt.make_function(tag, fid, params, with_source=rng.random() < 0.5, ret_ann=ret)
     rt.KIND[fid] = "fn" if kind == "fn" else ("int" if kind == "int" else "gate")
+    ctor_batch = ctor_rename_of([p["n"] for p in params]) if ctor_rename_of else None
+    ckw = {"rename_inputs": dict(ctor_batch)} if ctor_batch else {}
     if kind == "fn":
         rt.BEH[fid] = lambda kw, _f=fid, _n=len(outs): rt.term(_f, kw, _n)
-        node = FunctionNode(fn, name=tag, output_name=outs[0] if len(outs) == 1 else tuple(outs))
+        node = FunctionNode(fn, name=tag, output_name=outs[0] if len(outs) == 1 else tuple(outs), **ckw)
     elif kind == "int":
         if len(outs) == 1:
             rt.BEH[fid] = lambda kw, _f=fid: rt.term(_f, kw, 1)
         else:
             rt.BEH[fid] = lambda kw, _f=fid, _o=tuple(outs): {o: (f"{_f}#{i}", tuple(sorted(kw.items()))) for i, o in enumerate(_o)}
-        node = InterruptNode(fn, name=tag, output_name=outs[0] if len(outs) == 1 else tuple(outs))
+        node = InterruptNode(fn, name=tag, output_name=outs[0] if len(outs) == 1 else tuple(outs), **ckw)
     elif kind == "ifelse":
         rt.BEH[fid] = lambda kw: True
-        node = IfElseNode(fn, when_true="tA", when_false="tB", name=tag)
+        node = IfElseNode(fn, when_true="tA", when_false="tB", name=tag, **ckw)
     else:
         rt.BEH[fid] = lambda kw: "tA"
-        node = RouteNode(fn, targets=["tA", "tB", END], name=tag)
-    return node, {"fid": fid, "params": params, "outs": outs, "kind": kind, "out_types": _out_types(node, outs)}
+        node = RouteNode(fn, targets=["tA", "tB", END], name=tag, **ckw)
+    return node, {"fid": fid, "params": params, "outs": outs, "kind": kind, "out_types": _out_types(node, outs), "ctor_batch": ctor_batch}
 
 
 def _out_types(node, outs):
@@ -304,22 +308,36 @@ def one_history(ctx, kind, i):
     rng = ctx.rng
     rt.reset_program()
     tag = f"{kind}{i}"
+    ctor = kind != "graph" and rng.random() < 0.35
+    holder = {}
+
+    def first_batch(names_):
+        h, k_ = gen_history(rng, names_, rng.randint(1, 5), "x")
+        holder["h"], holder["k"] = h, k_
+        return h[0] if h else None
+
     if kind == "graph":
         node, meta = make_graph_node(rng, tag)
     else:
-        node, meta = make_fn_node(rng, kind, tag)
+        node, meta = make_fn_node(rng, kind, tag, first_batch if ctor else None)
     names = [p["n"] for p in meta["params"]]
-    in_hist, kinds_i = gen_history(rng, names, rng.randint(1, 5), "x")
+    if ctor and holder.get("h"):
+        # the first batch of the history went through the constructor (rename_inputs=...)
+        in_hist, kinds_i = holder["h"], holder["k"]
+        ctx.obs["constructor_rename_histories"] += 1
+    else:
+        ctor = False
+        in_hist, kinds_i = gen_history(rng, names, rng.randint(1, 5), "x")
     out_hist, kinds_o = (gen_history(rng, meta["outs"], rng.randint(0, 3), "y") if meta["outs"] else ([], []))
     used_between = rng.random() < 0.5
     case = {"kind": kind, "params": [{k: (v if k != "ann" else getattr(v, "__name__", str(v))) for k, v in p.items()} for p in meta["params"]], "outs": meta["outs"], "in_history": in_hist, "out_history": out_hist, "used_between_batches": used_between, "bound": meta.get("bound")}
     ctx.obs["histories"] += 1
     base = node
-    done_in, done_out = [], []
-    steps = [("in", b) for b in in_hist] + [("out", b) for b in out_hist]
+    done_in, done_out = ([in_hist[0]] if ctor else []), []
+    steps = [("in", b) for b in (in_hist[1:] if ctor else in_hist)] + [("out", b) for b in out_hist]
     rng.shuffle(steps)
     # keep relative order inside each kind
-    ii = iter(in_hist)
+    ii = iter(in_hist[1:] if ctor else in_hist)
     oo = iter(out_hist)
     steps = [("in", next(ii)) if k == "in" else ("out", next(oo)) for k, _ in steps]
     for k, b in steps:
@@ -338,7 +356,7 @@ def one_history(ctx, kind, i):
         return
     run_check(ctx, node, meta, in_hist, out_hist, case, "final run")
     # the receiver of all this must be untouched (cheap cross-check of C07 on the same objects)
-    if not static_checks(ctx, base, meta, [], [], case, "original node afterwards"):
+    if not static_checks(ctx, base, meta, ([in_hist[0]] if ctor else []), [], case, "original node afterwards"):
         return
     rejected_renames(ctx, node, case)
     nontrivial = len(in_hist) + len(out_hist) >= 2 or "perm" in kinds_i or "mixed" in kinds_i
@@ -421,6 +439,56 @@ def map_follow(ctx, base, meta, in_hist, case):
         ctx.obs["clone_follow_checked"] += 1
         if any(o is cloned_obj for o in objs) or len({id(o) for o in objs}) != len(objs) or any(o != cloned_obj for o in objs):
             ctx.violation("C06:clone-not-followed", f"clone=[{others[0]!r}] before history {in_hist}: the items received {'the caller\'s own object' if any(o is cloned_obj for o in objs) else 'shared/altered copies'} for that parameter (now called {fm[others[0]]!r})", case)
+
+
+def cached_rename_history(ctx, i):
+    """ONE cached function node and the nodes derived from it by a rename history, all run on one cache with inputs
+    that are addressed by NAME (the value sent to an input says which external name it was sent to). After a
+    permutation of the input names the same external dict reaches other parameters: the result must be the function's
+    result for what each underlying parameter received - not an entry stored under the earlier wiring."""
+    from hypergraph import FunctionNode, Graph, InMemoryCache, SyncRunner
+
+    rng = ctx.rng
+    rt.reset_program()
+    tag = f"cf{i}"
+    fid = f"c06/{tag}"
+    n = rng.randint(2, 4)
+    params = [{"n": f"p{j}"} for j in range(n)]
+    fn = rt.make_function(tag, fid, params, with_source=rng.random() < 0.5)
+    rt.KIND[fid] = "fn"
+    rt.BEH[fid] = lambda kw, _f=fid: rt.term(_f, kw, 1)
+    base = FunctionNode(fn, name=tag, output_name="o", cache=True)
+    names = [p["n"] for p in params]
+    # permutations of the existing names make the external dicts coincide between wirings
+    hist = []
+    cur = list(names)
+    for _ in range(rng.randint(1, 3)):
+        perm = cur[:]
+        rng.shuffle(perm)
+        b = {a: c for a, c in zip(cur, perm) if a != c}
+        if b:
+            hist.append(b)
+            cur = [b.get(x, x) for x in cur]
+    runner = SyncRunner(cache=InMemoryCache())
+    node = base
+    case = {"program": "cached function node renamed by permutations, one cache", "history": hist}
+    for k in range(len(hist) + 1):
+        if k:
+            node = node.with_inputs(dict(hist[k - 1]))
+        fm = ref.forward_map(names, hist[:k])
+        provided = {fm[p_]: f"to:{fm[p_]}" for p_ in names}
+        exp = rt.term(fid, {p_: f"to:{fm[p_]}" for p_ in names}, 1)
+        for rep in range(2):
+            try:
+                res = runner.run(Graph([node], name="c06c"), dict(provided))
+            except Exception as e:  # noqa: BLE001
+                ctx.violation("C06:run-raised:" + type(e).__name__, f"cached node after {k} batches raised {e!r}", case)
+                return
+            ctx.obs["cached_rename_runs"] += 1
+            if res.values.get("o") != exp:
+                ctx.violation("C06:wrong-argument:cached", f"after {k} rename batches {hist[:k]} (run {rep}, cache shared with the earlier wirings): result {core.short(res.values.get('o'))}; each underlying parameter received {core.short(exp)}", {**case, "step": k})
+                return
+    ctx.case({"cached-rename": canon(hist)}, bool(hist))
 
 
 def alpha_graph(ctx, i):
@@ -520,3 +588,5 @@ def run(ctx):
             alpha_graph(ctx, i)
         if i % 3 == 1:
             mapped_gated_rename(ctx, i)
+        if i % 3 == 2:
+            cached_rename_history(ctx, i)
